@@ -84,6 +84,7 @@ type job struct {
 	MaxRuns   int    `json:"max_runs"`
 	LogDir    string `json:"log_dir"`
 	NoShrink  bool   `json:"no_shrink"`
+	SkipEnum  bool   `json:"skip_enum"`
 	ShrinkS   int    `json:"shrink_s"`
 	Only      []int  `json:"only"`
 	Known     []string `json:"known"` // signature globs of listed known findings: counted, not shrunk
@@ -318,12 +319,16 @@ func cmdRun(args []string) {
 			defer wg.Done()
 			j := job{Mode: "run", Property: prop, Tier: tier, Seed: seed, Worker: w, Workers: workers, BudgetS: budget,
 				Out: filepath.Join(scratch, fmt.Sprintf("w%d.json", w)), ReplayDir: replayDir, MaxRuns: maxRuns, LogDir: fl["log-dir"],
-				NoShrink: fl["no-shrink"] == "true", Only: only, Known: knownPats}
+				NoShrink: fl["no-shrink"] == "true", Only: only, Known: knownPats, SkipEnum: fl["skip-enum"] == "true"}
 			jb, _ := json.Marshal(j)
 			jp := filepath.Join(scratch, fmt.Sprintf("job%d.json", w))
 			_ = os.WriteFile(jp, jb, 0o644)
 			cmd := exec.Command(bres.Binary, "-test.run", "^TestWorker$", "-test.timeout", "12h", "-test.count", "1")
 			cmd.Env = append(os.Environ(), "SIM_JOB="+jp, "GODEBUG=asyncpreemptoff=1", "GOMAXPROCS=1")
+			if fl["race"] == "true" {
+				// reports go to files; the worker keeps running (a report is an observation of the batch)
+				cmd.Env = append(cmd.Env, "SIM_RACE=1", fmt.Sprintf("GORACE=log_path=%s halt_on_error=0 exitcode=0 history_size=2", filepath.Join(scratch, fmt.Sprintf("race-w%d", w))))
+			}
 			cmd.Dir = scratch
 			logf, _ := os.Create(filepath.Join(scratch, fmt.Sprintf("w%d.log", w)))
 			cmd.Stdout = logf
@@ -369,6 +374,9 @@ func cmdRun(args []string) {
 				if json.Unmarshal(b, &wo) == nil {
 					outs[w] = &wo
 				}
+			}
+			if fl["race"] == "true" && outs[w] != nil {
+				runErr = nil // the testing package marks the worker failed whenever the detector spoke
 			}
 			if runErr != nil || outs[w] == nil {
 				lg, _ := os.ReadFile(filepath.Join(scratch, fmt.Sprintf("w%d.log", w)))
@@ -494,6 +502,14 @@ func cmdRun(args []string) {
 	wall := time.Since(start).Seconds()
 
 	agg.Violations = append(agg.Violations, hangViolations...)
+	raceReports := 0
+	if fl["race"] == "true" {
+		rv, nrep := harvestRaceReports(scratch, prop, replayDir)
+		raceReports = nrep
+		agg.Violations = append(agg.Violations, rv...)
+		agg.Probes["race-detector-reports-total"] = nrep
+	}
+	_ = raceReports
 	known := loadKnown()
 	sort.Slice(agg.Violations, func(i, j int) bool { return agg.Violations[i].Index < agg.Violations[j].Index })
 	knownHit := map[string]int{}
@@ -575,7 +591,57 @@ func cmdRun(args []string) {
 	}
 	fmt.Printf("simcheck: %s %s: %d runs (%d enumerated, enumeration complete=%v), %d distinct non-trivial traces, %.0f s simulated, %.1f s wall, violations=%d known=%d\n",
 		prop, tier, agg.Runs, agg.EnumRuns, enumDone, distinct, float64(agg.SimNs)/1e9, wall, len(fresh), len(agg.Violations)-len(fresh))
-	if len(fresh) > 0 {
+	// race-detector tier: a second pass of the sampled runs in a -race build (thorough only)
+	raceFound := false
+	if tier == "thorough" && raceTierProps[prop] && fl["race"] != "true" && len(only) == 0 {
+		self, _ := os.Executable()
+		tmpEv, _ := os.MkdirTemp("", "verif-race-ev-")
+		sub := exec.Command(self, "run", prop, "--tier", "quick", "--race", "--skip-enum", "--budget", "300", "--workers", strconv.Itoa(workers))
+		sub.Env = append(os.Environ(), "SIMCHECK_EVIDENCE_DIR="+tmpEv, "VERIF_TIER=quick", fmt.Sprintf("VERIF_SEED=%d", int64(seed)))
+		sub.Dir = verifDir
+		sub.Stderr = os.Stderr
+		outb, rerr := sub.Output()
+		summary := ""
+		for _, ln := range strings.Split(string(outb), "\n") {
+			if strings.HasPrefix(ln, "VIOLATION ") || strings.HasPrefix(ln, "  ") {
+				fmt.Println(ln)
+			}
+			if strings.HasPrefix(ln, "simcheck: "+prop+" quick:") {
+				summary = ln
+			}
+		}
+		fmt.Printf("simcheck: %s race-detector tier: %s\n", prop, strings.TrimPrefix(summary, "simcheck: "+prop+" quick: "))
+		code := 0
+		if ee, ok := rerr.(*exec.ExitError); ok {
+			code = ee.ExitCode()
+		} else if rerr != nil {
+			code = 2
+		}
+		switch code {
+		case 1:
+			raceFound = true
+		case 2:
+			trouble = true
+		}
+		// append what the race tier covered to the evidence file
+		if eb, err := os.ReadFile(filepath.Join(evDir, prop+".json")); err == nil {
+			var m map[string]any
+			if json.Unmarshal(eb, &m) == nil {
+				var rm map[string]any
+				if rb, err := os.ReadFile(filepath.Join(tmpEv, prop+".json")); err == nil {
+					_ = json.Unmarshal(rb, &rm)
+				}
+				m["race_detector_tier"] = map[string]any{"summary": summary, "exit": code,
+					"note": "same sampled plans in a -race build (GOMAXPROCS=1, cooperative scheduler); reports whose accessing frames are harness code are discarded; race reports are observations and do not replay",
+					"coverage": rm["coverage"]}
+				if nb, err := json.MarshalIndent(m, "", " "); err == nil {
+					_ = os.WriteFile(filepath.Join(evDir, prop+".json"), nb, 0o644)
+				}
+			}
+		}
+		os.RemoveAll(tmpEv)
+	}
+	if len(fresh) > 0 || raceFound {
 		exit(1)
 	}
 	if trouble {
@@ -583,6 +649,9 @@ func cmdRun(args []string) {
 	}
 	exit(0)
 }
+
+// raceTierProps lists the properties whose statement includes freedom from data races.
+var raceTierProps = map[string]bool{"C16": true}
 
 func cmdReplay(args []string) {
 	pos, fl := parseFlags(args)
@@ -821,4 +890,84 @@ func replayHangs(binary, scratch, file string) (bool, string) {
 
 		return true, buf.String()
 	}
+}
+
+
+// harvestRaceReports collects the race detector's reports of a --race batch. A report is a
+// violation if a pion/dtls (or pion/transport) frame takes part in it; reports that only involve
+// the harness are counted and printed to stderr as harness trouble. Race reports do not replay
+// (the detector's instrumentation perturbs the schedule), so the "replay" file is the report.
+func harvestRaceReports(scratch, prop, replayDir string) ([]violationRec, int) {
+	files, _ := filepath.Glob(filepath.Join(scratch, "race-w*"))
+	var out []violationRec
+	seen := map[string]bool{}
+	total, harness := 0, 0
+	defer func() {
+		if harness > 2 {
+			fmt.Fprintf(os.Stderr, "RACE-IN-HARNESS: %d reports in all whose accessing frames are harness code (discarded)\n", harness)
+		}
+	}()
+	for _, f := range files {
+		b, err := os.ReadFile(f)
+		if err != nil {
+			continue
+		}
+		for _, rep := range strings.Split(string(b), "==================") {
+			if !strings.Contains(rep, "DATA RACE") {
+				continue
+			}
+			total++
+			// the accessing function is the first frame under each "Read at / Write at / Previous ..." line
+			var funcs []string
+			lines := strings.Split(rep, "\n")
+			lib := false
+			for i, ln := range lines {
+				t := strings.TrimSpace(ln)
+				if !(strings.HasPrefix(t, "Read at") || strings.HasPrefix(t, "Write at") || strings.HasPrefix(t, "Previous read at") || strings.HasPrefix(t, "Previous write at") ||
+					strings.HasPrefix(t, "Atomic") || strings.HasPrefix(t, "Previous atomic")) || i+1 >= len(lines) {
+					continue
+				}
+				fn := strings.TrimSpace(lines[i+1])
+				if j := strings.LastIndex(fn, "()"); j > 0 {
+					fn = fn[:j]
+				}
+				funcs = append(funcs, fn)
+				if (strings.HasPrefix(fn, "github.com/pion/dtls/v3") || strings.HasPrefix(fn, "github.com/pion/transport/v4")) &&
+					!strings.Contains(fn, "verifsim") && !strings.Contains(fn, "verifhook") && !strings.Contains(fn, ".Verif") {
+					lib = true
+				}
+			}
+			if !lib {
+				harness++
+				if harness <= 2 {
+					fmt.Fprintf(os.Stderr, "RACE-IN-HARNESS (not a verdict; the harness relies on the cooperative scheduler, not on synchronisation):%s\n", firstLines(rep, 8))
+				}
+
+				continue
+			}
+			sig := "race:" + strings.Join(funcs, "|")
+			if seen[sig] {
+				out = append(out, violationRec{Signature: sig, Message: "data race (same pair of functions as an earlier report)"})
+
+				continue
+			}
+			seen[sig] = true
+			_ = os.MkdirAll(replayDir, 0o755)
+			name := filepath.Join(replayDir, fmt.Sprintf("%s-race-%d.txt", prop, len(seen)))
+			_ = os.WriteFile(name, []byte(rep), 0o644)
+			out = append(out, violationRec{Signature: sig, Replay: name, Confirmed: 1,
+				Message: "the race detector reports a data race in library code (report in the file; race reports are observations and do not replay)"})
+		}
+	}
+
+	return out, total
+}
+
+func firstLines(s string, n int) string {
+	ls := strings.Split(s, "\n")
+	if len(ls) > n {
+		ls = ls[:n]
+	}
+
+	return strings.Join(ls, "\n")
 }
